@@ -920,9 +920,11 @@ def run_n15(chk, repo):
             return on_nan_path(e.value, depth + 1)
         if isinstance(e, ast.Call) and isinstance(e.func, ast.Attribute) and e.func.attr == 'get':
             return on_nan_path(e.func.value, depth + 1)
+        if isinstance(e, ast.Call) and (dotted(e.func) or '').split('.')[-1] == 'partial' and e.args:
+            return on_nan_path(e.args[0], depth + 1)
         if isinstance(e, ast.Name):
-            if e.id in fdefs:
-                fd = fdefs[e.id]
+            if e.id in fdefs or (e.id in m.functions and e.id not in ldefs):
+                fd = fdefs[e.id] if e.id in fdefs else m.functions[e.id].node
                 for s in fd.body:
                     if isinstance(s, ast.If) and isnan_test(s.test):
                         neg = isinstance(s.test, ast.UnaryOp) and isinstance(s.test.op, ast.Not)
